@@ -21,7 +21,7 @@ RULE = (
     "'perturb-all': exhaustive sweep over every message kind x every constrained field (state, perm, rule, switch/light "
     "values of def/one parts and of the top-level oneLight, enableBLOB mode, number text, each required attribute, child "
     "kind, tag) x a replacement catalogue (absent, empty, wrong case, member of another vocabulary, arbitrary text, "
-    "Python-internal looking strings such as module paths, dunder names, class attribute names, None/True, a vocabulary member with a "
+    "Python-internal looking strings such as module paths, dunder names, class attribute names, None/True, every attribute name and string value found by reflection on the tree's vocabulary classes, a vocabulary member with a "
     "control character attached) - run in this interpreter and once more in a child interpreter started with -O; 'perturb': "
     "Hypothesis msg_spec with 1-3 random perturbations and a random foreign spelling; 'random-xml': random element trees over "
     "known/unknown tags and attribute names; thorough adds an atheris campaign on the same target. A case is non-trivial "
@@ -44,6 +44,29 @@ PY_INTERNAL = [
     "ONE_OF_MANY", "AT_MOST_ONE", "ANY_OF_MANY", "NEVER", "ALSO", "ONLY", "None", "True", "False", "builtins", "str",
     "<attribute '__dict__' of 'State' objects>", "<attribute '__weakref__' of 'State' objects>",
 ]
+
+
+def _reflected():
+    """Every attribute name and attribute value of the library's vocabulary classes, read from the tree under test:
+    whatever a validator that reflects over those classes could mistake for a member."""
+    out = []
+    mods = []
+    for modname in ("indi.message.const", "indi.device.properties.const", "indi.message.checks"):
+        try:
+            mods.append(__import__(modname, fromlist=["x"]))
+        except Exception:  # noqa: BLE001
+            pass
+    for m in mods:
+        for cls in list(vars(m).values()):
+            if not isinstance(cls, type) or not getattr(cls, "__module__", "").startswith("indi."):
+                continue
+            for k, v in list(vars(cls).items()):
+                for cand in (k, v if isinstance(v, str) else None):
+                    if isinstance(cand, str) and cand not in out and len(cand) < 80:
+                        out.append(cand)
+    return sorted(out)
+
+
 CATALOGUE = (
     [None, "", " "]
     + ["ok", "OK", "on", "ON", "off", "idle", "RW", "Rw", "oneofmany", "never", "ALSO"]
@@ -52,6 +75,7 @@ CATALOGUE = (
     # things Python's own conversions accept but INDI number syntax does not
     + ["nan", "NaN", "inf", "-inf", "+Infinity", "infinity", "1_000", "1_0.5e1_0", "0x10", "0b1", "1e", "e5", "1.2.3", "--1", "1 ", " 1", "1:2:3:4", "1:", ":30", "1::30", "1j", "1e5L", "١٢٣"]
     + PY_INTERNAL
+    + [w for w in _reflected() if w not in PY_INTERNAL]
     # a member of a vocabulary with one control character attached (attribute values keep it when written as a character reference)
     + [w + sfx for w in ("Ok", "Idle", "rw", "ro", "OneOfMany", "AnyOfMany", "On", "Off", "Also", "Only", "Never", "Alert") for sfx in ("\n", "\r", "\t")]
     + ["\n" + w for w in ("Ok", "rw", "OneOfMany", "On", "Also")]
